@@ -209,12 +209,42 @@ CHECKS = {
             "The property is an 'only if': Bogus, Indeterminate and errors are always accepted; NSEC3/opt-out worlds, wildcard "
             "and CNAME answers, key-tag collisions, revoked keys and RSA worlds are not generated; crypto (ring) trusted.",
             "DESIGN.md section 4 C07", "chain"),
+    "C18": ("model_checking",
+            "TLA+ timeline machine of the name server pool (rounds, TCP fallback, backoff, deadline, shared in-flight entry) with "
+            "requirement operators checked by TLC; TLC-enumerated configurations and arrival patterns replayed into the real "
+            "NameServerPool on a virtual clock (hook H3); recorded runs judged by a TLA+ monitor",
+            "Exhaustive over all assignments of 19 server profiles (answer, trusted/untrusted NXDOMAIN, truncated then TCP, "
+            "timeout, io error, busy then answer ... with latencies) to 1-4 servers x ordering strategies x parallelism x "
+            "per-attempt timeout, with 2-3 callers joining anywhere; every case is replayed against NameServerPool::send behind a "
+            "mock ConnectionProvider on tokio's paused clock and the result class, completion time and exchange log compared; "
+            "seeded random runs with 1-6 servers and caller cancellation judged by Trace_Pool (FindsHealthy, TcpRetry, "
+            "UntrustedNxContinues, Deadline, SharedOnce, MapCleaned).",
+            "Scripted DnsHandle per (server, protocol); the per-attempt timeout is enforced by the script; a busy server owes one "
+            "retry only; which healthy server answers and the order under QueryStatistics are free.",
+            "DESIGN.md section 4 C18", "pool"),
+    "C19": ("model_checking",
+            "TLA+ iterative-resolver model with a bailiwick rule on observables, model-checked by TLC; generated internets "
+            "replayed into the real Recursor behind per-address response tables, followed by a silent-network probe phase "
+            "(poisoned cache detection); runs judged by a TLA+ monitor",
+            "Exhaustive over small simulated internets (root + <= 3 levels, in/out-of-zone NS names, with/without glue, CNAME and "
+            "NS loops, glueless cycles, lame and self-referential delegations) x hostile servers injecting out-of-bailiwick "
+            "records in any section x queries; each is realised as scripted authoritative tables behind a mock "
+            "ConnectionProvider and resolved by Recursor::resolve; observables: returned records, addresses contacted, number of "
+            "upstream queries, and what a second phase with a silent network still answers (cached); judged by Trace_Recursor "
+            "(NoPoison, Filters, Terminates); stub alias chasing depth in the trace direction.",
+            "The zones an address is delegated are read statically from the internet definition; hostile servers add only "
+            "out-of-bailiwick records; the query bound is deliberately generous; DNSSEC off.",
+            "DESIGN.md section 4 C19", "recursor"),
 }
 
 NOT_YET = {
 }
 
 ENGINES = [
+    {"name": "pool", "path": "spec/Pool.tla", "serves_properties": ["C18"],
+     "kind_free_text": "TLA+ spec (PoolOps, Pool, MC_/Gen_/Trace_Pool) + harness/src/bin/drive_pool.rs"},
+    {"name": "recursor", "path": "spec/Recursor.tla", "serves_properties": ["C19"],
+     "kind_free_text": "TLA+ spec (RecursorOps, Recursor, RecursorNets, MC_/Gen_/Trace_Recursor) + harness/src/bin/drive_recursor.rs"},
     {"name": "chain", "path": "spec/Chain.tla", "serves_properties": ["C07"],
      "kind_free_text": "TLA+ spec (ChainOps, Chain, MC_/Gen_/Trace_Chain) + harness/src/bin/drive_chain.rs"},
     {"name": "zonefile", "path": "spec/ZoneFile.tla", "serves_properties": ["C20"],
